@@ -21,6 +21,8 @@ inductive Op
   | xmovePrev (a node : Nat)        -- move_prev_than / move_back
   | xpopFront (l : Nat)
   | xpopBack (l : Nat)
+  | xsplice (l oth : Nat)           -- unlink_and_move_all_nodes_from_other
+  | xclear (l : Nat)                -- clear() / ~dlist_base()
 
 def exec (h : Heap) : Op → Heap
   | .cinit a => dlistInit h a
@@ -37,6 +39,8 @@ def exec (h : Heap) : Op → Heap
   | .xmovePrev a node => nodeMovePrevThan h a node
   | .xpopFront l => listPopFront h l
   | .xpopBack l => listPopBack h l
+  | .xsplice l oth => listSplice h l oth
+  | .xclear l => listClear h l 1000000
 
 def run (h : Heap) (ops : List Op) : Heap := ops.foldl exec h
 
@@ -97,6 +101,19 @@ inductive AStep : Rings → Op → Rings → Prop
   | xpopFrontEmpty {A l B} : Same A ([l] :: B) → AStep A (.xpopFront l) ([l] :: B)
   | xpopBack {A l xs z B} : Same A ((l :: (xs ++ [z])) :: B) → AStep A (.xpopBack l) ([z] :: (l :: xs) :: B)
   | xpopBackEmpty {A l B} : Same A ([l] :: B) → AStep A (.xpopBack l) ([l] :: B)
+  -- splice: the destination head leaves its ring (its old nodes stay linked among
+  -- themselves), takes over every node of the source, the source becomes empty
+  | xsplice {A l x xs oth y ys B} : Same A ((l :: x :: xs) :: (oth :: y :: ys) :: B) →
+      AStep A (.xsplice l oth) ([oth] :: (l :: y :: ys) :: (x :: xs) :: B)
+  | xspliceIntoEmpty {A l oth y ys B} : Same A ([l] :: (oth :: y :: ys) :: B) →
+      AStep A (.xsplice l oth) ([oth] :: (l :: y :: ys) :: B)
+  | xspliceFromEmpty {A l x xs oth B} : Same A ((l :: x :: xs) :: [oth] :: B) →
+      AStep A (.xsplice l oth) ([l] :: (x :: xs) :: [oth] :: B)
+  | xspliceBothEmpty {A l oth B} : Same A ([l] :: [oth] :: B) →
+      AStep A (.xsplice l oth) ([l] :: [oth] :: B)
+  -- clear / destructor of a list: every element ends up alone (fewer than 10^6 elements)
+  | xclear {A l xs B} : Same A ((l :: xs) :: B) → xs.length < 1000000 →
+      AStep A (.xclear l) ([l] :: (xs.map fun x => [x]) ++ B)
   -- replace `instead` by the lone node `iter`
   | cinsertInstead {A iter instead ys B} : Same A ([iter] :: (instead :: ys) :: B) →
       AStep A (.cinsertInstead iter instead) ([instead] :: (iter :: ys) :: B)
